@@ -99,6 +99,14 @@ EXT_TOKENS = TOKENS + ["%ff", "\x00", "%25", "%5C", "\\", "%7E", "%41", " ", "%"
                        "%%32E", "home", "u", "canary", "%C3%A9", "%30", "%2D", "%5f", "root"]
 ROOTS = ["/", "/srv/", "a"]
 MARK_OUT = b"OUTSIDE-MARKER"
+# hand-picked client paths run first on every run (and through every verb class)
+SEEDS = [b"inside", b"a/f", b"a", b"a/a", b"a/a/f", b"~/f", b"~user/f", b"~user/a/f", b"\xc3\xa9/f", b"%C3%A9/f",
+         b"canary", b"../canary", b"a/../../canary", b"%2E%2E/canary", b"%2e%2e/%2e%2e/canary", b"..%2Fcanary",
+         b"%2E%2E%2Fcanary", b"a/..%2F..%2Fcanary", b"a%2F..%2F..%2Fcanary", b"%%32E%%32E/canary", b"..%5Ccanary",
+         b"..%252Fcanary", b"%252E%252E/canary", b"~/..%2F..%2F..%2Fcanary", b"~%2F..%2F..%2Fcanary", b"..%2F", b"%2F..",
+         b"..%2Fa", b"..%2Fevil", b"..%2Fa/f", b"//canary", b"/../canary", b"a//../../canary", b"%2F/f", b"%00/f", b"a\x00",
+         b"~", b"~/", b"~user", b"~/../..", b"..%2Froot2/h/f", b"home/u/f", b"2/h/f", b"..%2F..%2F..%2F..%2F..%2Fetc%2Fpasswd",
+         b"%2e%2e%2fcanary%ff", b"..%2fnew-file", b"a/..%2f..%2fnew-dir"]
 
 
 def hexb(b):
@@ -146,6 +154,7 @@ def make_world(tag):
         ControlDir.create_branch_convenience(os.path.join(w.W, "a"), format=format_registry.make_controldir("2a"))
         ControlDir.create_branch_convenience(os.path.join(w.W, "evil"), format=format_registry.make_controldir("2a"))
     w.servers = {}
+    w.pristine = snapshot(w, content=True)
     return w
 
 
@@ -176,8 +185,13 @@ class Server:
     pass
 
 
-def make_server(w, rcp):
+# (root client path, userdir configuration)
+CONFIGS = [("/", "real"), ("/srv/", "table"), ("a", "twin"), ("/", "plain")]
+
+
+def make_server(w, rcp, kind=None):
     """the real BzrServerFactory stack over a tracing local transport"""
+    kind = kind or {"/": "real", "/srv/": "table", "a": "twin"}[rcp]
     from breezy import transport as T
     from breezy.bzr.smart import server as S
     s = Server()
@@ -185,18 +199,26 @@ def make_server(w, rcp):
     s.rcp = rcp
     s.tt = T.get_transport_from_url("trace+file://" + w.root + "/")
     real_base = S._local_path_for_transport(T.get_transport_from_path(w.root))
-    if rcp == "/":
+    s.kind = kind
+    if kind == "real":
+        # the default expander: the real os.path.expanduser, $HOME inside the served directory
         s.table = {"": w.root + "/home/u"}
         s.base = real_base
         exp = _real_expander(w.root + "/home/u")
-    elif rcp == "/srv/":
+    elif kind == "table":
+        # the current user's home is OUTSIDE the served directory, ~user is inside
         s.table = {"": w.W + "/evil", "user": w.root + "/home/user"}
         s.base = real_base
         exp = _table_expander(s.table)
-    else:
+    elif kind == "twin":
         s.table = {"": w.W + "/root2/h/", "user": w.root + "/home/user/"}
         s.base = w.root          # no trailing slash: sibling-prefix expansion
         exp = _table_expander(s.table)
+    else:
+        # no local base path known: the factory installs the chroot only
+        s.table = {}
+        s.base = None
+        exp = None
     f = S.BzrServerFactory(userdir_expander=exp, get_base_path=lambda t: s.base)
     f._make_backing_transport(s.tt)
     s.factory = f
@@ -348,12 +370,12 @@ def t2_paths(ctx, s, cps, fx, deep=True):
     w = s.world
     rcp_h = hexb(s.rcp.encode())
     root_h = hexb(w.root.encode())
-    base_h = hexb(s.base.encode())
+    base_h = hexb(s.base.encode()) if s.base is not None else "~"
     tbl = tbl_hex(s)
     cases, lines, outs = [], [], []
     post = []        # (case, kind, model line index, extra) checks that need the model's reply
     for cp in cps:
-        case = dict(rcp=s.rcp, cp=cp.hex())
+        case = dict(rcp=s.rcp, cfg=s.kind, cp=cp.hex())
         nt = nontrivial(cp)
         ctx.case(case, nontrivial=nt)
         o_tr, r = real_tr(s, R.SmartServerRequest, cp)
@@ -433,6 +455,13 @@ def t2_paths(ctx, s, cps, fx, deep=True):
             ctx.count("loc:" + ("inside" if (loc + b"/").startswith(w.root.encode() + b"/") else "OUTSIDE"))
         else:
             exp = mm["os"]
+        cpb = bytes.fromhex(c["cp"])
+        if (bk is None and b"\x00" in cpb and b"~" in cpb and out.startswith(("OSError", "EXC:ValueError"))
+                and exp.startswith("E:")):
+            # pwd.getpwnam inside the real os.path.expanduser refuses a NUL in the user name: a rejection
+            # before anything reaches the local transport; the model rejects the same path later (NUL / non-ASCII)
+            ctx.count("read:refused-by-expanduser")
+            continue
         if bk is None and out in ("E:InvalidURL",):
             # refused before reaching the local transport (non-ASCII relpath)
             exp = "E:InvalidURL" if mm["os"] == "E:InvalidURL" else exp
@@ -442,20 +471,22 @@ def t2_paths(ctx, s, cps, fx, deep=True):
 
 
 def _family(kind, cp, translated=None):
-    """classify a failing input; anything unexpected gets None"""
+    """classify a failing input by what it contains; anything unexpected gets None.
+    kind 'vfs': a client path given to a VFS verb; kind 'jail': a URL opened during a request"""
     low = cp.lower()
-    if kind == "vfs":
-        # a segment that hides a separator or a dot-dot behind percent-encoding
-        if b"%2f" in low and (b".." in cp or b"%2e" in low):
-            return "vfs-encoded-slash-dotdot"
-        if re.search(rb"%+(25)*%?3?2?e", low) and b"%%" in low:
-            return "vfs-double-encoded-dotdot"
+    dotdot = b".." in cp or b"%2e" in low
+    if b"%2f" in low and dotdot:
+        # a '/' hidden behind percent-encoding next to a (possibly encoded) dot-dot
+        slug = "encoded-slash-dotdot"
+    elif re.search(rb"%%3[0-9]", low) and re.search(rb"%%32(e|%45|%65)", low):
+        # "%%32E": a '%' followed by the escape of a hex digit, which only a second decoding turns into %2E
+        slug = "double-encoded-dotdot"
+    elif kind == "jail" and dotdot:
+        # a chroot URL with a literal or %2E-encoded dot-dot segment handed to get_transport()
+        slug = "dotdot-unnormalised"
+    else:
         return None
-    if kind == "jail":
-        if b"%2f" in low and (b".." in cp or b"%2e" in low):
-            return "jail-url-encoded-slash-dotdot"
-        return None
-    return None
+    return ("vfs-" if kind == "vfs" else "jail-url-") + slug
 
 
 # --------------------------------------------------------------------------
@@ -468,6 +499,13 @@ READ_VERBS = [
     (b"BzrDir.get_branches", 1),
 ]
 WRITE_VERBS = [b"put", b"mkdir", b"append", b"put_non_atomic", b"BzrDirFormat.initialize"]
+VFS_VERBS = {b"has", b"get", b"stat", b"list_dir", b"iter_files_recursive", b"put", b"mkdir", b"append",
+             b"put_non_atomic"}
+
+
+def _verb_family(verb, cp):
+    """only the VFS verbs (whose translate_client_path unescapes) belong to the vfs-* finding families"""
+    return _family("vfs", cp) if verb in VFS_VERBS else None
 
 
 def dispatch(s, verb, args, body=None, commands=None):
@@ -502,23 +540,34 @@ def canon_resp(s, resp):
     return "%s %s | %s" % (tag, ",".join(mask(a) for a in resp.args), mask(body))
 
 
-def snapshot(w):
-    """every entry of the world (control directories are recorded, not entered)"""
+def snapshot(w, content=False):
+    """every entry of the world (control directories are recorded, not entered):
+    relpath -> "d" | "bzr" | ("l", target) | file content"""
     snap = {}
-    for d, dirs, files in os.walk(os.fsencode(w.W)):
-        rel = os.path.relpath(d, os.fsencode(w.W))
-        if b".bzr" in dirs:
-            snap[os.path.join(rel, b".bzr")] = "bzr"
-            dirs.remove(b".bzr")
+    W = os.fsencode(w.W)
+
+    def walk(d, rel):
         snap[rel] = "d"
-        for f in files:
-            p = os.path.join(d, f)
-            with open(p, "rb") as fh:
-                snap[os.path.join(rel, f)] = fh.read()
+        with os.scandir(d) as it:
+            entries = list(it)
+        for e in entries:
+            r = e.name if rel == b"." else rel + b"/" + e.name
+            if e.is_symlink():
+                snap[r] = ("l", os.readlink(e.path))
+            elif e.is_dir():
+                if e.name == b".bzr":
+                    snap[r] = "bzr"
+                else:
+                    walk(e.path, r)
+            else:
+                with open(e.path, "rb") as fh:
+                    snap[r] = fh.read()
+    walk(W, b".")
     return snap
 
 
 def restore(w, before, after):
+    """undo what a writing verb did (the pristine content was recorded when the world was made)"""
     W = os.fsencode(w.W)
     for p in sorted(after, key=len, reverse=True):
         if p not in before:
@@ -528,14 +577,14 @@ def restore(w, before, after):
             else:
                 os.unlink(full)
     for p, v in before.items():
-        if after.get(p) != v and isinstance(v, bytes):
+        if after.get(p) != v and p in w.pristine and isinstance(w.pristine[p], bytes):
             with open(os.path.join(W, p), "wb") as fh:
-                fh.write(v)
+                fh.write(w.pristine[p])
 
 
 def verbs_case(ctx, sa, sb, cp):
     """every verb class with this client path, in world A and world B"""
-    case = dict(rcp=sa.rcp, cp=cp.hex())
+    case = dict(rcp=sa.rcp, cfg=sa.kind, cp=cp.hex())
     wa = sa.world
     root_rel = b"root"
     for verb, _ in READ_VERBS:
@@ -546,14 +595,14 @@ def verbs_case(ctx, sa, sb, cp):
         if MARK_OUT.hex() in ra or MARK_OUT.hex() in rb:
             ctx.violation(dict(case, verb=verb.decode()),
                           "verb %s with client path %r (root client path %r) returns content of a file outside the "
-                          "served directory" % (verb.decode(), cp, sa.rcp), family=_family("vfs", cp))
+                          "served directory" % (verb.decode(), cp, sa.rcp), family=_verb_family(verb, cp))
         elif ra != rb:
             ctx.violation(dict(case, verb=verb.decode()),
                           "verb %s with client path %r (root client path %r): the response depends on what is "
                           "OUTSIDE the served directory (world A: %s / world B: %s)"
-                          % (verb.decode(), cp, sa.rcp, ra[:160], rb[:160]), family=_family("vfs", cp))
+                          % (verb.decode(), cp, sa.rcp, ra[:160], rb[:160]), family=_verb_family(verb, cp))
+    before = snapshot(wa)
     for verb in WRITE_VERBS:
-        before = snapshot(wa)
         if verb == b"put":
             resp = dispatch(sa, verb, (cp, b""), body=b"W:put")
         elif verb == b"append":
@@ -572,10 +621,11 @@ def verbs_case(ctx, sa, sb, cp):
         if bad:
             ctx.violation(dict(case, verb=verb.decode()),
                           "verb %s with client path %r (root client path %r) created/changed %r OUTSIDE the served "
-                          "directory" % (verb.decode(), cp, sa.rcp, sorted(bad)[:3]), family=_family("vfs", cp))
+                          "directory" % (verb.decode(), cp, sa.rcp, sorted(bad)[:3]), family=_verb_family(verb, cp))
         if changed:
             ctx.count("write:changed-" + ("outside" if bad else "inside"))
             restore(wa, before, after)
+            before = snapshot(wa)
 
 
 # --------------------------------------------------------------------------
@@ -615,7 +665,7 @@ def socket_cases(ctx, s, cps):
                 if got[2] and MARK_OUT in got[2]:
                     ctx.violation(dict(rcp=s.rcp, cp=cp.hex(), verb=verb.decode(), op="socket"),
                                   "over a real socket medium: %s %r returns outside content" % (verb.decode(), cp),
-                                  family=_family("vfs", cp))
+                                  family=_verb_family(verb, cp))
     finally:
         with contextlib.suppress(Exception):
             cm.disconnect()
@@ -649,6 +699,8 @@ def t2_functions(ctx, cps):
 def t2_userdirs(ctx, servers, cps):
     cases, lines, outs = [], [], []
     for s in servers:
+        if s.base is None:
+            continue
         for cp in cps:
             try:
                 st = cp.decode("utf-8")
@@ -719,7 +771,7 @@ def jail_cases(ctx, sa, sb):
                 finally:
                     R.jail_info.transports = None
                 al = "~" if allowed is None else (",".join(hexb(x.base.encode()) for x in allowed) or "-")
-                case = dict(op="jail", allowed=None if allowed is None else [x.base.replace(s.prefix, "P:") for x in allowed],
+                case = dict(op="jail", cfg=s.kind, allowed=None if allowed is None else [x.base.replace(s.prefix, "P:") for x in allowed],
                             url=t.base.replace(s.prefix, "P:"))
                 ctx.case(case)
                 ctx.count("jail:" + o)
@@ -741,28 +793,35 @@ def jail_cases(ctx, sa, sb):
             ("outside-file-url", "file://" + w.W + "/", False),
             ("outside-file-url-evil", "file://" + w.W + "/evil/", False),
             ("inside-by-file-url", "file://" + w.root + "/a/", False),
-            ("dotdot", P + "../", False),
-            ("dotdot-a", P + "a/../../a/", True),      # clamps to P + "a/": inside
-            ("enc-dotdot", P + "%2E%2E/", False),
-            ("enc-slash-dotdot", P + "..%2F", False),
-            ("enc-slash-dotdot-evil", P + "a/..%2F..%2Fevil/", False),
-            ("double-enc-dotdot", P + "%%32E%%32E/", False),
+            # URLs whose handling depends on the (external) chroot transport: oracle only
+            ("dotdot", P + "../", None),
+            ("dotdot-a", P + "a/../../a/", None),
+            ("enc-dotdot", P + "%2E%2E/", None),
+            ("enc-slash-dotdot", P + "..%2F", None),
+            ("enc-slash-dotdot-evil", P + "a/..%2F..%2Fevil/", None),
+            ("double-enc-dotdot", P + "%%32E%%32E/", None),
         ]
         for name, url, expect_open in urls:
             resp = dispatch(s, b"open_url", (url.encode("utf-8"),), commands=cmds)
             c = canon_resp(s, resp)
-            case = dict(op="jail-open", name=name, url=url.replace(P, "P:").replace(w.W, "<W>"))
+            case = dict(op="jail-open", cfg=s.kind, name=name, url=url.replace(P, "P:").replace(w.W, "<W>"))
             ctx.case(case)
             ctx.traces += 1
             opened = resp.is_successful()
             ctx.count("jail-open:%s:%s" % (name, "opened" if opened else "refused"))
-            # oracle: whatever was opened must be a control directory INSIDE the served directory:
-            # in world B nothing outside is a control directory, so an "opened" that only world A gives is a breakout
-            respb = dispatch(sb, b"open_url", (url.replace(P, sb.prefix).replace(w.W, sb.world.W).encode("utf-8"),), commands=cmds)
+            # oracle: nothing outside may be opened or even probed.  In world B nothing outside is a control
+            # directory, so a response that differs between the worlds is a breakout of the jail
+            respb = dispatch(sb, b"open_url", (url.replace(P, sb.prefix).replace(w.W, sb.world.W).encode("utf-8"),),
+                             commands=cmds)
+            cb = canon_resp(sb, respb)
+            fam = _family("jail", url[len(P):].encode() if url.startswith(P) else url.encode())
             if opened and not respb.is_successful():
                 ctx.violation(case, "a control directory OUTSIDE the jail was opened during a request: url %s -> %s"
-                              % (case["url"], c[:120]), family=_family("jail", url.encode()))
-            elif opened != expect_open:
+                              % (case["url"], c[:120]), family=fam)
+            elif c != cb:
+                ctx.violation(case, "opening url %s during a request: the response depends on what is OUTSIDE the "
+                              "jail (world A: %s / world B: %s)" % (case["url"], c[:120], cb[:120]), family=fam)
+            elif expect_open is not None and opened != expect_open:
                 ctx.mismatch(case, "opened" if opened else "refused: " + c[:80], "opened" if expect_open else "refused")
 
 
@@ -772,10 +831,10 @@ def run(ctx, n_exh=None, n_deep=None, n_verbs=None):
     from breezy.bzr.smart import vfs  # noqa
     rng = ctx.rng
     wa, wb = make_world("A"), make_world("B")
-    sa = {r: make_server(wa, r) for r in ROOTS}
-    sb = {r: make_server(wb, r) for r in ROOTS}
-    fxs = {r: probe_fx(sa[r]) for r in ROOTS}
-    fx = fxs["/"]
+    sa = {k: make_server(wa, *k) for k in CONFIGS}
+    sb = {k: make_server(wb, *k) for k in CONFIGS}
+    fxs = {k: probe_fx(sa[k]) for k in CONFIGS}
+    fx = fxs[CONFIGS[0]]
     if fx is None or any(v != fx for v in fxs.values()):
         ctx.mismatch(dict(op="probe"), repr(fxs), "as-found or fixed VfsRequest.translate_client_path")
         fx = bool(fx)
@@ -786,11 +845,11 @@ def run(ctx, n_exh=None, n_deep=None, n_verbs=None):
     shallow = gen_exhaustive(n_exh)
     deep_set = set(gen_exhaustive(n_deep))
     verbs_set = gen_exhaustive(n_verbs)
-    rnd = gen_random(rng, ctx.pick(1500, 12000), 3, 8)
-    rnd_verbs = rnd[: ctx.pick(60, 600)]
+    rnd = gen_random(rng, ctx.pick(600, 12000), 3, 8)
+    rnd_verbs = rnd[: ctx.pick(12, 400)]
     bad = gen_malformed(rng, ctx.pick(150, 1000))
     ctx.extra["domain"] = dict(tokens=TOKENS, exhaustive_translate=n_exh, exhaustive_stack=n_deep,
-                               exhaustive_verbs=n_verbs, random=len(rnd), malformed=len(bad), roots=ROOTS)
+                               exhaustive_verbs=n_verbs, random=len(rnd), malformed=len(bad), configs=CONFIGS)
 
     def prefixed(r, cps):
         # under a non-trivial root client path half of the paths are sent below the root
@@ -800,35 +859,46 @@ def run(ctx, n_exh=None, n_deep=None, n_verbs=None):
     import time
     tm = ctx.extra.setdefault("phase_s", {})
     t0 = time.time()
-    for r in ROOTS:
-        s = sa[r]
-        t2_paths(ctx, s, [c for c in shallow if c not in deep_set], fx, deep=False)
-        if r != "/":
-            t2_paths(ctx, s, prefixed(r, [c for c in shallow if c not in deep_set]), fx, deep=False)
+    only_shallow = [c for c in shallow if c not in deep_set]
+    for k in CONFIGS:
+        s, r = sa[k], k[0]
+        t2_paths(ctx, s, prefixed(r, SEEDS), fx)
+        # all strings of <= n_exh tokens below the root client path (translate functions only) ...
+        if k[1] != "plain":      # the translate functions do not depend on the backing stack
+            t2_paths(ctx, s, prefixed(r, only_shallow), fx, deep=False)
+        # ... all strings of <= n_deep tokens through the whole stack
         t2_paths(ctx, s, prefixed(r, sorted(deep_set)), fx)
         t2_paths(ctx, s, prefixed(r, rnd), fx)
         t2_paths(ctx, s, bad + prefixed(r, bad), fx)
         if r != "/":
-            t2_paths(ctx, s, sorted(deep_set)[:400] + rnd[:200], fx)
+            # the same strings NOT below the root client path (mostly PathNotChild)
+            t2_paths(ctx, s, sorted(deep_set) + rnd[:300], fx)
+            t2_paths(ctx, s, rng.sample(only_shallow, min(len(only_shallow), ctx.pick(1500, 20000))), fx, deep=False)
     ctx.exhaustive = True
-    tm["paths"] = round(time.time() - t0, 1); t0 = time.time()
-    t2_functions(ctx, shallow + rnd)
+    tm["paths"] = round(time.time() - t0, 1)
+    t0 = time.time()
+    t2_functions(ctx, SEEDS + shallow + rnd)
     t2_userdirs(ctx, list(sa.values()), [c for c in shallow if c.startswith(b"~")][: ctx.pick(1500, 20000)]
                 + [c for c in rnd if c.startswith(b"~")] + [b"a/~", b"", b"~", b"~/", b"~user", b"~user/..", b"~/../.."])
-    tm["functions"] = round(time.time() - t0, 1); t0 = time.time()
-    for r in ROOTS:
-        for cp in prefixed(r, verbs_set + rnd_verbs):
-            verbs_case(ctx, sa[r], sb[r], cp)
-    tm["verbs"] = round(time.time() - t0, 1); t0 = time.time()
-    socket_cases(ctx, sa["/"], [b"a", b"inside", b"..%2Fcanary", b"%2E%2E/canary", b"a/..%2F..%2Fcanary", b"/a", b"\xc3\xa9/f",
+    tm["functions"] = round(time.time() - t0, 1)
+    t0 = time.time()
+    for i, k in enumerate(CONFIGS):
+        # every verb class: the whole <= n_verbs-token set on the first configuration, a sample on the others
+        vs = verbs_set if (i == 0 or ctx.thorough()) else rng.sample(verbs_set, min(len(verbs_set), 12))
+        for cp in prefixed(k[0], SEEDS + vs + rnd_verbs):
+            verbs_case(ctx, sa[k], sb[k], cp)
+    tm["verbs"] = round(time.time() - t0, 1)
+    socket_cases(ctx, sa[CONFIGS[3]], [b"%%32E%%32E/canary", b"..%2Fcanary"])
+    socket_cases(ctx, sa[CONFIGS[0]], [b"a", b"inside", b"..%2Fcanary", b"%2E%2E/canary", b"a/..%2F..%2Fcanary", b"/a", b"\xc3\xa9/f",
                                 b"~/f", b"%00"] + rnd[:20])
-    jail_cases(ctx, sa["/"], sb["/"])
+    jail_cases(ctx, sa[CONFIGS[0]], sb[CONFIGS[0]])
+    jail_cases(ctx, sa[CONFIGS[3]], sb[CONFIGS[3]])
 
 
 def replay(ctx, case):
     wa, wb = make_world("A"), make_world("B")
     rcp = case.get("rcp", "/")
-    sa_, sb_ = make_server(wa, rcp), make_server(wb, rcp)
+    sa_, sb_ = make_server(wa, rcp, case.get("cfg")), make_server(wb, rcp, case.get("cfg"))
     fx = bool(probe_fx(sa_))
     out = dict(case=case)
     if case.get("op", "").startswith("jail"):
